@@ -124,10 +124,23 @@ def run_kani_unit(unit_name, gen, cfg, harness_filter, tier, use_cache=True, job
     meta = dict(cache_hits=hits, ran=len(todo), cmd=None, wall=0.0, tree_hash=th)
     if todo:
         tag = '%s_%d' % (unit_name, os.getpid())
+        heavy = set(h['name'] for h in info['harnesses'] if h.get('heavy'))
+        batches = [([h for h, _ in todo if h not in heavy], jobs, info.get('harness_timeout', 900), 3600),
+                   # heavy harnesses (thorough tier): ~10 GB and 10-20 min each -> few at a time, long timeout
+                   ([h for h, _ in todo if h in heavy], min(jobs, 4), 2700, 4 * 3600)]
+        r = None
         try:
-            r = kani.run(outdir, [h for h, _ in todo], jobs=jobs, prefix=prefix,
-                         harness_timeout=info.get('harness_timeout', 900), tag=tag,
-                         extra=info.get('kani_extra', []) + ['--target-dir', os.path.join(WORK, cfg, 'target_' + tag)])
+            for hs, jb, hto, tto in batches:
+                if not hs:
+                    continue
+                rb = kani.run(outdir, hs, jobs=jb, prefix=prefix, harness_timeout=hto, total_timeout=tto, tag=tag,
+                              extra=info.get('kani_extra', []) + ['--target-dir', os.path.join(WORK, cfg, 'target_' + tag)])
+                if r is None:
+                    r = rb
+                else:
+                    r['results'].update(rb['results'])
+                    r['wall'] += rb['wall']
+                    r['cmd'] += ' ;; ' + rb['cmd']
         except kani.ToolFailure as e:
             raise Undecided(str(e))
         finally:
